@@ -112,9 +112,9 @@ global added to the code – a memo, a marker, a digest in place of the data –
 even if no explored input behaves differently. -/
 theorem state_shape_matches_source :
     Shapes.globalState = [] ∧
-    Shapes.observer = [("endpoint", "Endpoint"), ("token", "Vec<u8>"), ("unacknowledged_messages", "u16"), ("message_id", "Option<u16>")] ∧
+    Shapes.observer = [("endpoint", "Endpoint"), ("message_id", "Option<u16>"), ("token", "Vec<u8>"), ("unacknowledged_messages", "u16")] ∧
     Shapes.resource = [("observers", "Vec<Observer<Endpoint>>"), ("sequence", "u32")] ∧
-    Shapes.subject = [("resources", "BTreeMap<ResourcePath,Resource<Endpoint>>"), ("unacknowledged_limit", "u8"), ("phantom", "PhantomData<Endpoint>")] :=
+    Shapes.subject = [("phantom", "PhantomData<Endpoint>"), ("resources", "BTreeMap<ResourcePath,Resource<Endpoint>>"), ("unacknowledged_limit", "u8")] :=
   ⟨ShapeTie.no_global_state, ShapeTie.observer, ShapeTie.resource, ShapeTie.subject⟩
 
 end CoapLite.C14
